@@ -102,6 +102,34 @@ fn radix_literals() -> Vec<String> {
             v.push(format!("0b{}__{}", &s[..2], &s[2..]));
         }
     }
+    // wide literals: every width 54..=66 bits, values around each rounding boundary
+    // (multiples of half an ulp, +-1, +- a quarter ulp) and bit patterns, in both radices
+    for w in 54u32..=66 {
+        let top: u128 = 1u128 << (w - 1);
+        let ulp: u128 = 1u128 << (w - 53);
+        let half = ulp / 2;
+        let mut vals: Vec<u128> = vec![];
+        for j in 0u128..9 {
+            for d in [-1i128, 0, 1, -((half / 2) as i128), (half / 2) as i128] {
+                let x = (top + j * half) as i128 + d;
+                if x > 0 {
+                    vals.push(x as u128);
+                }
+            }
+        }
+        let mask: u128 = (1u128 << w) - 1;
+        vals.push(mask);
+        vals.push(top | (0x5555_5555_5555_5555_5555u128 & (mask >> 1)));
+        vals.push(top | (0xAAAA_AAAA_AAAA_AAAA_AAAAu128 & (mask >> 1)));
+        vals.push(top + 24);
+        vals.push(top + 3);
+        vals.sort();
+        vals.dedup();
+        for x in vals {
+            v.push(format!("0x{:x}", x));
+            v.push(format!("0b{:b}", x));
+        }
+    }
     for s in [
         "0x1fffffffffffff", "0x20000000000000", "0x20000000000001", "0x20000000000003", "0x7fffffffffffffff", "0x7ffffffffffffc00", "0x8000000000000000",
         "0xffffffffffffffff", "0x10000000000000000", "0x7fff_ffff_ffff_fbff", "0x3ff_ffff_ffff_ffff", "-0x10", "+0x10", "-0b101", "+0b1_0",
